@@ -109,6 +109,10 @@ def apply_edit(db, e):
         db.tables[e['t'] - 1].delete_index(e['x'] - 1)
     elif op == 'add_enum_item':
         db.enums[e['e'] - 1].add_item(EnumItem(dec(e['item']['name'])))
+    elif op == 'rename_item_add_old':
+        en = db.enums[e['e'] - 1]
+        en.items[e['k'] - 1].name = dec(e['v'])
+        en.add_item(EnumItem(dec(e['old'])))
     # additions and removals of top-level elements, through the public container methods
     elif op == 'add_table':
         from pydbml.classes import Table
@@ -273,7 +277,7 @@ def main(argv: List[str]) -> int:
     rep.notes['edits_applied'] = dict(sorted(ops.items()))
     want = ['table_name', 'table_schema', 'table_alias', 'table_note', 'col_name', 'col_type:str', 'col_type:enum', 'col_flag', 'col_default',
             'col_note', 'enum_name', 'ref_type:plain', 'ref_type:to_m2m', 'ref_type:from_m2m', 'ref_inline', 'ref_name', 'ref_actions',
-            'add_column', 'add_index', 'remove_index', 'dup_index', 'add_enum_item', 'add_table', 'delete_table', 'add_ref', 'delete_ref',
+            'add_column', 'add_index', 'remove_index', 'dup_index', 'add_enum_item', 'rename_item_add_old', 'add_table', 'delete_table', 'add_ref', 'delete_ref',
             'add_enum', 'delete_enum', 'add_group', 'delete_group', 'add_sticky', 'set_project', 'delete_project']
     never = [k for k in want if not ops.get(k)]
     if never:
